@@ -171,7 +171,7 @@ def run_item(item):
                         "sig": f"C02/{E.SHORT[a.kind]}/{item['pool']}/false-equal",
                         "input": f"{U.key(a)}|{U.key(b)}",
                         "what": f"{U.describe(a)} == {U.describe(b)} is True but no structure-preserving bijection exists",
-                        "item": {"pool": item["pool"], "lo": i, "hi": i + 1, "tier": tier}, "detail": None})
+                        "item": item, "detail": None})
             else:
                 oc["unequal"] = oc.get("unequal", 0) + 1
     if item["lo"] == 0:
